@@ -156,6 +156,24 @@ def load_template_function(relpath, qualname, marker):
                 raise ExtractionError("template under %s does not parse: %s"
                                       % (qualname, e))
             fdefs = [n for n in mod.body if isinstance(n, ast.FunctionDef)]
+            if not fdefs:
+                # the template is a function *body*; its header is built by
+                # PythonFunctionEmitter(name, args) in the same emitting function: synthesise
+                # `def name(args):` mechanically from that call
+                hdr = None
+                for c in ast.walk(node):
+                    if isinstance(c, ast.Call) and ast.unparse(c.func).endswith("PythonFunctionEmitter") \
+                            and len(c.args) == 2 and isinstance(c.args[0], ast.Constant):
+                        try:
+                            args = ast.literal_eval(c.args[1])
+                        except Exception:
+                            continue
+                        hdr = "def %s(%s):\n" % (c.args[0].value, ", ".join(args))
+                if hdr is None:
+                    raise ExtractionError("template under %s has no def and no PythonFunctionEmitter header" % qualname)
+                code = hdr + textwrap.indent(code, "    ")
+                mod = ast.parse(code)
+                fdefs = [n for n in mod.body if isinstance(n, ast.FunctionDef)]
             if len(fdefs) != 1:
                 raise ExtractionError("template under %s: %d defs"
                                       % (qualname, len(fdefs)))
